@@ -681,3 +681,34 @@ func init() {
 	}
 	_ = fmt.Sprint
 }
+
+func init() {
+	intrinsics["strings.NewReplacer"] = func(fr *frame, args []value) value {
+		pairs := args[0].([]value)
+		if len(pairs)%2 == 1 {
+			panic(targetPanic{iface{types_String, "strings.NewReplacer: odd argument count"}})
+		}
+		return &hostObj{kind: "replacer", aux: append([]value{}, pairs...)}
+	}
+	intrinsics["(*strings.Replacer).Replace"] = func(fr *frame, args []value) value {
+		h, ok := args[0].(*hostObj)
+		if !ok || h == nil {
+			panic(rtErr("runtime error: invalid memory address or nil pointer dereference"))
+		}
+		pairs := h.aux.([]value)
+		if allConcrete(pairs) && allConcrete(args[1:2]) {
+			ss := make([]string, len(pairs))
+			for i, p := range pairs {
+				ss[i] = p.(string)
+			}
+			return strings.NewReplacer(ss...).Replace(args[1].(string))
+		}
+		ex := fr.ex()
+		var olds, news [][]*Term
+		for i := 0; i+1 < len(pairs); i += 2 {
+			olds = append(olds, strBytes(ex.ts, pairs[i]))
+			news = append(news, strBytes(ex.ts, pairs[i+1]))
+		}
+		return mkStr(replacePairs(ex, strBytes(ex.ts, args[1]), olds, news, -1))
+	}
+}
